@@ -52,3 +52,17 @@ From Verif Require Import Dns.
 Theorem dns_pinned_refuted : exists c qs, handle_request_pinned c qs = Panic.
 Proof. exists (mkDcfg 0 [] [] []), []. reflexivity. Qed.
 Print Assumptions dns_pinned_refuted.
+
+(* D17: before the fix a regular-key rollover on the receive path reset the whole priority
+   sequence handler, including this endpoint's OUTGOING priority counter: the same
+   (key epoch, priority class, sequence number) is handed out twice. *)
+From Verif Require Import Session.
+Theorem nonce_unique_pinned_refuted :
+  exists e l, q_out (e_regl e) < two32 /\ q_out (e_prio e) < two32 /\
+    let '(_, em, wrapped) := run_ops out_pinned in_pinned e l [] false in wrapped = false /\ ~ NoDup em.
+Proof.
+  exists (mkEp (mkSq 4294967295 0 5) (mkSq 0 0 0) 0 0), [SOut true; SIn 1 false 1; SOut true].
+  split; [reflexivity|]. split; [reflexivity|]. vm_compute. split; [reflexivity|].
+  intros H. inversion H as [|x l Hnin Hnd]; subst. apply Hnin. left. reflexivity.
+Qed.
+Print Assumptions nonce_unique_pinned_refuted.
